@@ -1,5 +1,6 @@
 import PGA.Proofs.Estimate
 import PGA.Props.C01
+import PGA.Props.C19
 import PGA.Proofs.EstimateUQ
 import PGA.Proofs.SchemeUnion
 import PGA.Model.Pipeline
@@ -654,5 +655,104 @@ theorem pipeline_esterr_iff (reg : List String) (S : Decompose.SchemeDef) (lib :
     cases he : estimate reg lib c set with
     | error err' => simp [he]
     | ok e0 => simp [he]
+
+/-! ### how `_do_load` keys a library -/
+
+section
+variable {α : Type}
+open PGA.GroupName
+
+/-- one step of the keying loop on an entry whose name parses -/
+theorem loadGroups_cons_ok (text : Name) (ps : α) (rest : List (Name × α)) (acc : List (String × α)) (g : Group)
+    (hp : parse text = .ok g) :
+    loadGroups ((text, ps) :: rest) acc =
+      if (acc.lookup (String.ofList g.name)).isSome then .error (.duplicate (String.ofList g.name))
+      else loadGroups rest (acc ++ [(String.ofList g.name, ps)]) := by
+  simp only [loadGroups, hp]
+
+theorem lookup_append_single (acc : List (String × α)) (k k' : String) (v : α) :
+    (acc ++ [(k, v)]).lookup k' = match acc.lookup k' with
+      | some w => some w
+      | none => if k' == k then some v else none := by
+  rw [List.lookup_append]
+  cases acc.lookup k' with
+  | some w => rfl
+  | none =>
+    simp only [Option.none_or, List.lookup]
+    cases k' == k <;> rfl
+
+/-- what the keying loop of the `groups:` section guarantees of the dict it returns: earlier entries stay, and every entry
+of the section is found under the canonical name of the group its name denotes -/
+theorem loadGroups_lookup (src : List (Name × α)) (acc cont : List (String × α)) (h : loadGroups src acc = .ok cont) :
+    (∀ k v, acc.lookup k = some v → cont.lookup k = some v) ∧
+    (∀ text ps g, (text, ps) ∈ src → parse text = .ok g → cont.lookup (String.ofList g.name) = some ps) := by
+  induction src generalizing acc with
+  | nil =>
+    simp only [loadGroups, Except.ok.injEq] at h
+    subst h
+    exact ⟨fun _ _ h => h, fun _ _ _ h => by cases h⟩
+  | cons p rest ih =>
+    obtain ⟨text, ps⟩ := p
+    cases hp : parse text with
+    | error e => cases e <;> simp [loadGroups, hp] at h
+    | ok g =>
+      rw [loadGroups_cons_ok text ps rest acc g hp] at h
+      cases hl : acc.lookup (String.ofList g.name) with
+      | some w => simp [hl] at h
+      | none =>
+        simp only [hl, Option.isSome_none, Bool.false_eq_true, if_false] at h
+        obtain ⟨ih1, ih2⟩ := ih _ h
+        constructor
+        · intro k v hk
+          apply ih1
+          rw [lookup_append_single, hk]
+        · intro text' ps' g' hm hp'
+          rcases List.mem_cons.mp hm with e | hm
+          · cases e
+            rw [hp] at hp'; cases hp'
+            apply ih1
+            rw [lookup_append_single, hl]
+            simp
+          · exact ih2 text' ps' g' hm hp'
+
+theorem loadDescs_lookup (src : List (String × α)) (acc cont : List (String × α)) (h : loadDescs src acc = .ok cont) :
+    ∀ k v, acc.lookup k = some v → cont.lookup k = some v := by
+  induction src generalizing acc with
+  | nil =>
+    simp only [loadDescs, Except.ok.injEq] at h
+    subst h
+    exact fun _ _ h => h
+  | cons p rest ih =>
+    obtain ⟨name, ps⟩ := p
+    unfold loadDescs at h
+    cases hl : acc.lookup name with
+    | some w => simp [hl] at h
+    | none =>
+      simp only [hl, Option.isSome_none, Bool.false_eq_true, if_false] at h
+      intro k v hk
+      apply ih _ h
+      rw [lookup_append_single, hk]
+
+/-- two spellings of the same entries: entry by entry the same data, the same centre, well-formed runs denoting the same
+multiset of peripherals (any order of the peripherals, any split into runs, counts written or not) -/
+def SameSpelling (src src' : List (Name × α)) : Prop :=
+  List.Forall₂ (fun p p' => p'.2 = p.2 ∧ ∃ c r r', p.1 = spell c r ∧ p'.1 = spell c r' ∧ WFRuns c r ∧ WFRuns c r' ∧
+    (expandRuns r).Perm (expandRuns r')) src src'
+
+theorem loadGroups_sameSpelling (src src' : List (Name × α)) (h : SameSpelling src src') (acc : List (String × α)) :
+    loadGroups src' acc = loadGroups src acc := by
+  induction h generalizing acc with
+  | nil => rfl
+  | @cons p p' src src' hp _ ih =>
+    obtain ⟨text, ps⟩ := p
+    obtain ⟨text', ps'⟩ := p'
+    obtain ⟨hps, c, r, r', rfl, rfl, hw, hw', hperm⟩ := hp
+    simp only at hps
+    subst hps
+    rw [loadGroups_cons_ok _ _ _ _ _ (C19_parse_spell c r hw), loadGroups_cons_ok _ _ _ _ _ (C19_parse_spell c r' hw')]
+    have : Group.name ⟨c, expandRuns r'⟩ = Group.name ⟨c, expandRuns r⟩ := (canon_perm c hperm).symm
+    rw [this, ih]
+
+end
 
 end PGA.Pipeline
